@@ -161,7 +161,7 @@ def obligations(tier, seed):
                                                  "X9 = {E}", "{E}, {F}", "jsr {E}, {F}", "stexp {E}, {F}", "make_wav {E}, {F}", ".include {E}"]
     for head in heads1:
         for e in d1:
-            if tier == "quick" and rnd.random() < 0.93:
+            if rnd.random() < (0.93 if tier == "quick" else 0.6):
                 continue
             if head.startswith((".repeat", ".blkb", ".blkw", ".align")) and any(m in e for m in ("<<", "_", "*", ". ", "\"")):
                 continue  # astronomically large counts are resource exhaustion, not logic (see 'outside')
